@@ -10,6 +10,7 @@ import lc
 import vclock  # noqa: F401,E402  (clock trampolines go in before the library binds anything)
 import isotp
 import k1_fuzz
+import time
 
 THEOREMS = 'IsoTp.Props.C16'
 RULE = ('(address) Address(...) with each of the 5 value parameters in {absent, 0, max, max+1, -1, float, str} x 7 modes x {full, tx_only, '
@@ -19,7 +20,8 @@ RULE = ('(address) Address(...) with each of the 5 value parameters in {absent, 
         'invalid value, wrong type}: all pairs + the triple tx_data_length x rate_limit_max_bitrate x rate_limit_window_size swept around the one-frame-per-window boundary for every link-layer size (with can_fd / rate_limit_enable absent, on, off) + random dictionaries, compared with a reference predicate written from the parameter '
         'documentation and with the extracted Coq Params.validate (C16_params_iff). (run) every accepted configuration is driven with '
         'payloads and random traffic: no exception may escape process(), send() raises at most ValueError.'
-        ' (set_address) sequences of set_address() with fully defined, partial and non-address arguments on a live layer: accepted exactly for fully defined addresses, a refused one leaves the layer working on the last accepted address, no other exception escapes.')
+        ' (set_address) sequences of set_address() with fully defined, partial and non-address arguments on a live layer: accepted exactly for fully defined addresses, a refused one leaves the layer working on the last accepted address, no other exception escapes.'
+        ' (set) sequences of up to 7 params.set(key, value) on a live layer, continued after a refusal (set() assigns before it validates, so the refused value stays and every later call is judged on the whole attribute state); wait_func takes part with good, raising, wrong-arity and non-callable values.')
 ASSUME = ['bool is not generated where an int is documented; unknown keys and non-int physical_id / functional_id are outside the quantifier; '
           'rate-limit products beyond 2^1023 are not generated']
 
@@ -359,20 +361,34 @@ def run_shard(campaign, shard, nshards, seed, tier):
                     over[x] = PVALS[x][0]
             check_params(part, m, over, campaign, rng)
     elif campaign == 'set':
-        # Params.set(key, value) on a live layer: every reachable parameter state stays valid (rejected set()s are ValueError;
-        # the validity of the resulting attribute state is compared with the reference predicate and with the Coq validate)
+        # Params.set(key, value) on a live layer: set() assigns, then validates the whole parameter state - a value that was refused
+        # stays assigned, so every later set() is refused as well until the offending key is given a valid value again.  The verdict of
+        # every call is compared with the reference predicate on the resulting attribute state and with the Coq validate.  wait_func
+        # (a callable probed with one call; not part of the Coq model) takes part with a good, a raising, a wrong-arity and a
+        # non-callable value.
         addrs()
+
+        def wf_raise(d):
+            raise RuntimeError('no')
+        WF = [('good', lambda d: None), ('good', time.sleep), ('bad', wf_raise), ('bad', lambda: None), ('bad', 5)]
         for _ in range((2400 if quick else 40000) // nshards + 1):
             layer = isotp.TransportLayerLogic(rxfn=lambda: None, txfn=lambda m: None, address=ADDR, params={})
             hist = []
             cur = dict(DEFAULTS)
-            for _ in range(rng.randint(1, 6)):
-                k = rng.choice(PKEYS)
-                v = rng.choice(PVALS[k]) if rng.random() < 0.5 else PVALS[k][rng.randrange(0, min(3, len(PVALS[k])))]
-                hist.append((k, repr(v)))
+            wf = 'good'
+            for _ in range(rng.randint(1, 7)):
+                if rng.random() < 0.12:
+                    k = 'wait_func'
+                    kind, v = rng.choice(WF)
+                    hist.append((k, kind + ':' + getattr(v, '__name__', repr(v))))
+                    nxt, nwf = dict(cur), kind
+                else:
+                    k = rng.choice(PKEYS)
+                    v = rng.choice(PVALS[k]) if rng.random() < 0.5 else PVALS[k][rng.randrange(0, min(3, len(PVALS[k])))]
+                    hist.append((k, repr(v)))
+                    nxt, nwf = dict(cur), wf
+                    nxt[k] = v
                 part.d['evaluations'] += 1
-                nxt = dict(cur)
-                nxt[k] = v
                 if any(isinstance(nxt[x], bool) for x in PKEYS if x not in ('can_fd', 'bitrate_switch', 'rate_limit_enable', 'listen_mode', 'blocking_send', 'override_receiver_stmin', 'rate_limit_window_size')):
                     break
                 try:
@@ -382,7 +398,7 @@ def run_shard(campaign, shard, nshards, seed, tier):
                     got = 'valueerror'
                 except Exception as e:
                     got = 'other:' + type(e).__name__
-                exp = 'ok' if params_expected(nxt) else 'valueerror'
+                exp = 'ok' if (params_expected(nxt) and nwf == 'good') else 'valueerror'
                 part.hist('set', got)
                 case = {'set_history': hist}
                 if got != exp:
@@ -392,13 +408,11 @@ def run_shard(campaign, shard, nshards, seed, tier):
                 m.p.stdin.write('V ' + ' '.join(pv_tok(nxt[x]) for x in PKEYS) + '\n'); m.p.stdin.flush()
                 mo = m.p.stdout.readline().strip()
                 part.d['traces_validated'] += 1
-                if (mo == '1') != (got == 'ok'):
-                    part.violation('correspondence', campaign, 'corr:params', 'implementation %s, Coq Params.validate %s' % (got, mo), case,
+                if ((mo == '1') and nwf == 'good') != (got == 'ok'):
+                    part.violation('correspondence', campaign, 'corr:params', 'implementation %s, Coq Params.validate %s (wait_func %s)' % (got, mo, nwf), case,
                                    {'theorem_or_correspondence': THEOREMS + '.C16_params_iff'})
                     break
-                if got != 'ok':
-                    break       # a rejected set() leaves the attribute assigned; the sequence ends here
-                cur = nxt
+                cur, wf = nxt, nwf       # refused or not, the value is assigned
             part.distinct({'h': hist})
     elif campaign == 'set_address':
         # set_address() on a live layer: accepted exactly for fully defined addresses (documented ValueError otherwise), and whatever
